@@ -4,7 +4,7 @@
    of the thread's semaphore, ETIMEDOUT only when the clock has reached the deadline, ECANCELED only when the note is
    notified or its expiry has been reached (C12's theorems about the futex semaphore are the licence); the mutex is
    the ABSTRACT one (atomic acquire / release that keep the lock field of the word).  Statements only; proofs in
-   Proof/CvProof.v (layer T).
+   Proof/CvProof.v (layer T) and Proof/CvProof7.v.
 
    [rets (get w t)] is the ghost log of the returns of thread t: for each returned nsync_cv_wait_with_deadline_generic
    ([r_wait = true]) the returned code, what the thread held at entry / at return, the deadline, the clock when
@@ -13,7 +13,7 @@
 From NsyncBase Require Import CSem.
 From NsyncGen Require Import Consts Sites.
 From NsyncModel Require Import CvModel.
-From NsyncProof Require Import CvProof.
+From NsyncProof Require Import CvProof CvProof2 CvProof3 CvProof7.
 From Coq Require Import List ZArith.
 Import ListNotations.
 Local Open Scope Z_scope.
@@ -27,7 +27,13 @@ Section C05cv.
 
   (* C05_mode: at every return the thread holds the mutex, in the mode in which it held it at entry
      (a thread that calls the wait without holding the mutex in the mode the word shows crashes in the model --
-     nsync_mu_unlock / runlock panic in the code -- and never returns) *)
+     nsync_mu_unlock / runlock panic in the code -- and never returns).
+     BY CONSTRUCTION of the abstract mutex: [held] and the logged [r_held] are written by the same abstract acquire
+     step ([st_WMuAcq]: mu_acquire sets held := Some m, the log entry reads it back), so "holds the mutex at return"
+     is not a fact about mu.c here (C01/C02 are).  THE CONTENT: the mode m that step asks for -- computed from
+     w->l_type for a waiter that wake_waiters transferred to the mutex queue (cv_mu == NULL), from is_reader_mu
+     otherwise -- equals the mode held at entry, for every path through the wait (invariant [lt_ok]: the l_type the
+     waiter stored at entry is still in its record when it returns). *)
   Theorem C05_mode : forall t e, In e (rets (get w t)) -> r_wait e = true -> r_held e = r_entry e /\ r_held e <> None.
   Proof. intros t e He Hw. destruct (c05_return_reachable progs clock0 exp sched t e He Hw) as (A & B & _). auto. Qed.
   (* nsync_wait_n: the mutex is re-acquired iff it was released, in the same mode *)
@@ -35,20 +41,50 @@ Section C05cv.
   Proof. exact (c05_return_waitn_reachable progs clock0 exp sched). Qed.
 
   (* C05_reason: the code is 0, or ETIMEDOUT and the clock had reached the deadline at an earlier step of the call
-     (r_toclk: the clock at the step that made sem_outcome ETIMEDOUT), or ECANCELED with a note that is notified *)
+     (r_toclk: the clock at the step that made sem_outcome ETIMEDOUT), or ECANCELED with a note that is notified.
+     BY CONSTRUCTION: the guards of [st_WSem] (ETIMEDOUT only if deadline <= clock, ECANCELED only if the note is
+     notified or expired -- the specification of nsync_sem_wait_with_cancel_ this model ASSUMES, licensed by C12), carried
+     to the log entry.  THE CONTENT: outcome is either 0 or that sem_outcome, on every path (outcome is assigned only
+     in the branch that confirms under the spinlock that the waiter is still queued), the clock is monotone and the
+     note stays notified. *)
   Theorem C05_reason : forall t e, In e (rets (get w t)) -> r_wait e = true ->
     r_code e = 0 \/
     (r_code e = ETIMEDOUT /\ exists d c, r_dl e = Some d /\ r_toclk e = Some c /\ d <= c /\ c <= r_clk e) \/
     (r_code e = ECANCELED /\ r_can e = true /\ r_notified e = true).
   Proof. intros t e He Hw. destruct (c05_return_reachable progs clock0 exp sched t e He Hw) as (_ & _ & _ & D). exact D. Qed.
 
-  (* C05_no_more_wakeups: once sem_outcome is non-zero the call performs no further P on the cv path: the thread is
-     about to call nsync_sem_wait_with_cancel_ only with sem_outcome = 0, and no returned call has logged a P after
-     its sem_outcome became non-zero (it only spins on waiting and then acquires the mutex as an ordinary locker) *)
-  Theorem C05_no_more_wakeups_pc : forall t l, t_pc (get w t) = WSem l -> w_so l = 0.
+  (* C05_no_P_after_outcome: once sem_outcome is non-zero the call performs no further P IN THE WAIT LOOP: the thread is
+     about to call nsync_sem_wait_with_cancel_ only with sem_outcome = 0 (this restates the guard of the loop, carried
+     to every reachable pc), and no returned call has logged a P in the loop after its sem_outcome became non-zero.
+     (The P operations of nsync_mu_lock_slow_ inside the final re-acquisition of the mutex are outside these two
+     statements: they belong to the abstract mutex.)  What the property needs -- no FURTHER WAKE-UP is needed once the
+     outcome is decided -- is C05_returns_alone below. *)
+  Theorem C05_no_P_after_outcome_pc : forall t l, t_pc (get w t) = WSem l -> w_so l = 0.
   Proof. exact (c05_no_more_P_reachable progs clock0 exp sched). Qed.
-  Theorem C05_no_more_wakeups_log : forall t e, In e (rets (get w t)) -> r_wait e = true -> r_pafter e = 0.
+  Theorem C05_no_P_after_outcome_log : forall t e, In e (rets (get w t)) -> r_wait e = true -> r_pafter e = 0.
   Proof. intros t e He Hw. destruct (c05_return_reachable progs clock0 exp sched t e He Hw) as (_ & _ & C & _). exact C. Qed.
+
+  (* C05_returns_alone: from a reachable world in which
+       - thread t is past its nsync_sem_wait_with_cancel_ with sem_outcome <> 0 ([dpc]: any pc from the re-test of
+         waiting to the re-acquisition of the mutex),
+       - its waiting flag is clear (a waker or an unlocker cleared it) or t itself is in the middle of unlinking its
+         record (timeout / cancellation confirmed under the spinlock),
+       - no OTHER thread is inside a cv spinlock section and the mutex is free,
+     thread t run ALONE -- the schedule consists of steps of t only, no step of any other thread, no environment step,
+     hence no V by anybody -- is back in its program within 8 steps, holding the mutex, with one more logged return,
+     and no semaphore has changed (t itself performed no P: it needed no wake-up).
+     NOT COVERED by a theorem: (i) the states in which sem_outcome <> 0 but the waiting flag is still set while a waker /
+     the abstract mutex holds the record (on a to_wake_list, on the mutex queue): there t spins until that thread's STORE
+     waiting = 0 -- a store, not a V: C04_private_fate / C04_waker_moves say the waker gets there, the unlocker's part
+     belongs to the abstract mutex; (ii) interleavings in which other threads keep entering cv spinlock sections or hold
+     the mutex: "returns as soon as the mutex can be re-acquired" under a fair schedule is not formalised (decided by
+     the stuck detector of the scenarios). *)
+  Theorem C05_returns_alone : forall t, decided w t ->
+    exists m, (m <= 8)%nat /\
+      let w' := run w (repeat (Thr t, CNormal) m) in
+      pcof w' t = Idle /\ sem w' = sem w /\ held (get w' t) <> None /\
+      exists e, rets (get w' t) = e :: rets (get w t) /\ r_wait e = true /\ r_held e <> None.
+  Proof. intros t. exact (solo_returns_reachable progs clock0 exp sched t). Qed.
 End C05cv.
 
 (* non-vacuity: a timed cancellable wait; the note is notified first, the wait returns ECANCELED holding the lock *)
@@ -63,6 +99,39 @@ Proof.
   cbv zeta. split; [vm_compute; reflexivity|]. split; [vm_compute; reflexivity|].
   eexists; split; [vm_compute; reflexivity|]; vm_compute; auto 10.
 Qed.
+(* non-vacuity of [decided]: (1) the race of C04_example_race, after the signaller's V: sem_outcome = ETIMEDOUT, the flag
+   is clear; alone, the waiter returns 0 in 4 steps.  (2) a timed waiter whose deadline has passed and whom nobody
+   signals: just after nsync_sem_wait_with_cancel_ returned ETIMEDOUT the state is NOT decided (the flag is set: the
+   thread must first confirm under the spinlock); two steps later it holds the spinlock... and at the pc that starts
+   the unlinking it is decided: alone it returns ETIMEDOUT in 7 steps. *)
+Example C05cv_example_decided_race :
+  let progs := [[OLock W; OWait (Some 5) false false; OUnlock]; [OSignal]] in
+  let w := run (init progs 0 None) (repeat (Thr 0%nat, CNormal) 12 ++ [(Tick 10, CNormal); (Thr 0%nat, CTimeout)] ++ repeat (Thr 1%nat, CNormal) 9) in
+  decided w 0%nat /\
+  let w' := run w (repeat (Thr 0%nat, CNormal) 4) in
+  pcof w' 0%nat = Idle /\ exists e, rets (get w' 0%nat) = [e] /\ r_code e = 0 /\ r_held e = Some W.
+Proof.
+  cbv zeta. split.
+  - split; [vm_compute; repeat constructor|]. split.
+    + intros [|[|s]] Hs; [elim Hs; reflexivity | vm_compute; reflexivity | vm_compute; destruct s; reflexivity].
+    + split; [vm_compute; reflexivity|]. eexists. split; [vm_compute; reflexivity|]. split; [vm_compute; discriminate | right; vm_compute; reflexivity].
+  - split; [vm_compute; reflexivity|]. eexists; split; [vm_compute; reflexivity|]; vm_compute; auto.
+Qed.
+Example C05cv_example_decided_timeout :
+  let progs := [[OLock W; OWait (Some 5) false false; OUnlock]] in
+  let w := run (init progs 0 None) (repeat (Thr 0%nat, CNormal) 12 ++ [(Tick 10, CNormal); (Thr 0%nat, CTimeout)] ++ repeat (Thr 0%nat, CNormal) 5) in
+  decided w 0%nat /\ (exists l, pcof w 0%nat = WRcLoad l) /\ waiting (recs w 0%nat) = 1 /\
+  let w' := run w (repeat (Thr 0%nat, CNormal) 7) in
+  pcof w' 0%nat = Idle /\ exists e, rets (get w' 0%nat) = [e] /\ r_code e = ETIMEDOUT /\ r_held e = Some W.
+Proof.
+  cbv zeta. split.
+  - split; [vm_compute; repeat constructor|]. split.
+    + intros [|s] Hs; [elim Hs; reflexivity | vm_compute; destruct s; reflexivity].
+    + split; [vm_compute; reflexivity|]. eexists. split; [vm_compute; reflexivity|]. split; [vm_compute; discriminate | left; vm_compute; reflexivity].
+  - split; [eexists; vm_compute; reflexivity|]. split; [vm_compute; reflexivity|].
+    split; [vm_compute; reflexivity|]. eexists; split; [vm_compute; reflexivity|]; vm_compute; auto.
+Qed.
 
 Print Assumptions C05_mode. Print Assumptions C05_mode_waitn. Print Assumptions C05_reason.
-Print Assumptions C05_no_more_wakeups_pc. Print Assumptions C05_no_more_wakeups_log. Print Assumptions C05cv_example_cancel.
+Print Assumptions C05_no_P_after_outcome_pc. Print Assumptions C05_no_P_after_outcome_log. Print Assumptions C05_returns_alone.
+Print Assumptions C05cv_example_cancel. Print Assumptions C05cv_example_decided_race. Print Assumptions C05cv_example_decided_timeout.
